@@ -123,7 +123,7 @@ func (f *frame) applyCall(c *ssa.CallCommon, v ssa.Value, pos token.Pos, deferre
 		f.havocDynamic(nil)
 		res := f.resultHavoc(base, resT)
 		if slot != nil {
-			e.note("slot contract " + slot.Key + " assumed of every function stored in that field (inductive hypothesis / trusted)")
+			e.note("slot contract " + slot.Key + " used at the dynamic call; that every function reachable through the slot satisfies it is the slotimpl obligation (functions marked implements are proved against it) when the slot carries props, otherwise an assumption")
 			f.assumeSlot(slot, slot.Ensures, sargs, res, oldHeap)
 		}
 		return res
